@@ -30,11 +30,14 @@ class StmtMixin:
         """returns list of (kind, path, value)"""
         states = [p]
         outs = []
+        gats = self.specs.ghost_ats.get(fc.qname) if (self.specs and not fc.spec) else None
         for st in stmts:
             nxt = []
             for q in states:
                 for (k, q2, v) in self.ex(st, q, fc):
                     if k == NEXT:
+                        if gats:
+                            self.apply_ghost_ats(gats, st, q2, fc)
                         nxt.append(q2)
                     else:
                         outs.append((k, q2, v))
@@ -45,6 +48,42 @@ class StmtMixin:
                 break
         outs.extend((NEXT, q, None) for q in states)
         return outs
+
+    def apply_ghost_ats(self, gats, st, p, fc):
+        """sidecar ghost statements attached after a statement (matched by its source text, never by line)"""
+        if isinstance(st, (ast.If, ast.While, ast.For, ast.Try, ast.FunctionDef)):
+            return
+        text = ast.unparse(st)
+        for g in gats:
+            if g.after != text:
+                continue
+            if g.contract is not None and g.contract != getattr(self, 'contract_name', None):
+                continue
+            # occurrence number of this statement text within the function
+            n = 0
+            hit = None
+            for sub in ast.walk(fc.node):
+                if isinstance(sub, ast.stmt) and not isinstance(sub, (ast.If, ast.While, ast.For, ast.Try, ast.FunctionDef)):
+                    if ast.unparse(sub) == text:
+                        if sub is st:
+                            hit = n
+                        n += 1
+            if hit != g.nth:
+                continue
+            self.ghost_hits = getattr(self, 'ghost_hits', set())
+            self.ghost_hits.add((g.target, g.after, g.nth))
+            sfc = FnCtx(self.specs.module_ctx, fc.qname + '/ghost', spec=True)
+            sfc.old = fc.old
+            saved = p.env
+            env = dict(p.ghost.get('genv', {}))
+            env.update(p.env)
+            p.env = env
+            try:
+                for (nm, e) in g.lets:
+                    p.env[nm] = self.ev(e, p, sfc)[0].v
+                self.run_ghost(g.calls, p, sfc, '%s/after:%s' % (fc.qname, text[:40]))
+            finally:
+                p.env = saved
 
     def ex(self, st, p, fc):
         m = getattr(self, 'ex_' + type(st).__name__, None)
